@@ -11,6 +11,16 @@ FUNCS = [(0, "q120_vec_mat1col_product_baa_ref"), (0, "q120_vec_mat1col_product_
          (4, "q120x2_vec_mat2cols_product_bbc_ref"), (4, "q120x2_vec_mat2cols_product_bbc_avx2")]
 
 
+def _probe(form, ell):
+    """max / zero alternating coefficients (one of the property's worst-case patterns): generic operands for the native probe run"""
+    M32, M64 = (1 << 32) - 1, (1 << 64) - 1
+    xs = 4 if form <= 2 else 8
+    ys = {0: 4, 1: 4, 2: 8, 3: 16, 4: 32}[form]
+    xm = M32 if form == 0 else M64
+    ym = M32 if (form == 0 or form >= 2) else M64
+    return [str(xm if (i // xs) % 2 else 0) for i in range(xs * ell)] + [str(ym - (i % 3)) for i in range(ys * ell)]
+
+
 def product_obs(ctx, tdir, ells):
     obs = []
     for (form, fn) in FUNCS:
@@ -20,6 +30,7 @@ def product_obs(ctx, tdir, ells):
                              unwind=max(160, 40 * ell + 20), inc=[tdir], family=fn, bit_flags=["--slice-formula"], timeout=600 if ctx.quick else 3000,
                              desc="all operand values of the layout symbolic: each output lane == sum x_i*y_i (mod q_k) as a polynomial identity with "
                                   "integer witness; every add/mul/shift of the real code carries a discharged no-wrap side condition"))
+            obs[-1].probe_inputs = _probe(form, ell)
     return obs
 
 
